@@ -22,6 +22,15 @@ of a resolved object can be observed); for the category "diag_comms" it is a dic
 to the diag-comm `n` defined in layer X).
 
 Every object gets the globally unique ID "<layer>.<category>.<short_name>".
+
+Short-name references inside data dictionary objects (optional, any entry may be a dict instead of the
+plain uid string):
+    dops:        {"uid": ..., "bits": 8|16}                      width of the DIAG-CODED-TYPE
+    structures:  {"uid": ..., "dop_snref": "<dop short name>"}   one VALUE parameter "v" with DOP-SNREF
+    end_of_pdu_fields / static_fields: {"uid": ..., "struct_snref": "<structure short name>"}
+                                                                  BASIC-STRUCTURE-SNREF instead of -REF
+    diag_comms:  {"kind": "service", "uid": ..., "struct": "<local structure short name>"}
+                 the request gets a third parameter "payload" (byte 2, DOP-REF to that local structure)
 """
 from __future__ import annotations
 
@@ -48,12 +57,17 @@ def oid(layer: str, cat: str, name: str) -> str:
     return f"{layer}.{cat}.{name}"
 
 
+def uid_of(entry):
+    """uid of a simple-category entry (plain string or dict with "uid")"""
+    return entry["uid"] if isinstance(entry, dict) else entry
+
+
 def _e(s) -> str:
     return escape(str(s), {'"': "&quot;"})
 
 
 def _names(uid):
-    return f"<LONG-NAME>{_e(uid)}</LONG-NAME>"
+    return f"<LONG-NAME>{_e(uid_of(uid))}</LONG-NAME>"
 
 
 _DCT8 = ('<DIAG-CODED-TYPE BASE-DATA-TYPE="A_UINT32" xsi:type="STANDARD-LENGTH-TYPE">'
@@ -64,9 +78,18 @@ _IDENT = '<COMPU-METHOD><CATEGORY>IDENTICAL</CATEGORY></COMPU-METHOD>'
 def service_prefix(hier: dict, layer_name: str, sn: str) -> bytes:
     """the request of every service object starts with two constant bytes that are unique for
     the object: (index of the defining layer, index of the short name among all diag-comm names)"""
-    lnames = sorted(l["name"] for l in hier["layers"])
-    names = sorted({n for l in hier["layers"] for n in l.get("objs", {}).get("diag_comms", {})})
+    lnames, names = prefix_index(hier)
     return bytes([0x10 + lnames.index(layer_name), 0x80 + names.index(sn)])
+
+
+def prefix_index(hier: dict):
+    """(sorted layer names, sorted diag-comm names) the request prefixes are numbered by; a restricted
+    hierarchy keeps the numbering of the hierarchy it was cut from (hier["prefix_index"])"""
+    pi = hier.get("prefix_index")
+    if pi:
+        return pi["layers"], pi["names"]
+    return (sorted(l["name"] for l in hier["layers"]),
+            sorted({n for l in hier["layers"] for n in l.get("objs", {}).get("diag_comms", {})}))
 
 
 def _coded_const(name: str, pos: int, value: int) -> str:
@@ -94,6 +117,11 @@ def _emit_ddd(hier: dict, layer: dict, out: list) -> None:
             raise ValueError(f"layer {L}: category {cat} needs a local {what} to refer to")
         return x
 
+    def sref(entry, cat):
+        if isinstance(entry, dict) and entry.get("struct_snref"):
+            return f'<BASIC-STRUCTURE-SNREF SHORT-NAME="{entry["struct_snref"]}"/>'
+        return f'<BASIC-STRUCTURE-REF ID-REF="{need(st_id, "structure", cat)}"/>'
+
     out.append("<DIAG-DATA-DICTIONARY-SPEC>")
     if objs.get("dtc_dops"):
         out.append("<DTC-DOPS>")
@@ -116,20 +144,27 @@ def _emit_ddd(hier: dict, layer: dict, out: list) -> None:
     if objs.get("dops"):
         out.append("<DATA-OBJECT-PROPS>")
         for n, uid in objs["dops"].items():
+            bits = uid.get("bits", 8) if isinstance(uid, dict) else 8
             out.append(f'<DATA-OBJECT-PROP ID="{oid(L, "dops", n)}"><SHORT-NAME>{n}</SHORT-NAME>{_names(uid)}'
-                       + _IDENT + _DCT8 + '<PHYSICAL-TYPE BASE-DATA-TYPE="A_UINT32"/></DATA-OBJECT-PROP>')
+                       + _IDENT + _DCT8.replace(">8<", f">{bits}<") +
+                       '<PHYSICAL-TYPE BASE-DATA-TYPE="A_UINT32"/></DATA-OBJECT-PROP>')
         out.append("</DATA-OBJECT-PROPS>")
     if objs.get("structures"):
         out.append("<STRUCTURES>")
         for n, uid in objs["structures"].items():
+            if isinstance(uid, dict) and uid.get("dop_snref"):
+                params = ('<PARAM xsi:type="VALUE"><SHORT-NAME>v</SHORT-NAME><BYTE-POSITION>0</BYTE-POSITION>'
+                          f'<DOP-SNREF SHORT-NAME="{uid["dop_snref"]}"/></PARAM>')
+            else:
+                params = _coded_const("c", 0, 1)
             out.append(f'<STRUCTURE ID="{oid(L, "structures", n)}"><SHORT-NAME>{n}</SHORT-NAME>{_names(uid)}'
-                       f'<PARAMS>{_coded_const("c", 0, 1)}</PARAMS></STRUCTURE>')
+                       f'<PARAMS>{params}</PARAMS></STRUCTURE>')
         out.append("</STRUCTURES>")
     if objs.get("static_fields"):
         out.append("<STATIC-FIELDS>")
         for n, uid in objs["static_fields"].items():
             out.append(f'<STATIC-FIELD ID="{oid(L, "static_fields", n)}"><SHORT-NAME>{n}</SHORT-NAME>{_names(uid)}'
-                       f'<BASIC-STRUCTURE-REF ID-REF="{need(st_id, "structure", "static_fields")}"/>'
+                       + sref(uid, "static_fields") +
                        '<FIXED-NUMBER-OF-ITEMS>2</FIXED-NUMBER-OF-ITEMS><ITEM-BYTE-SIZE>1</ITEM-BYTE-SIZE></STATIC-FIELD>')
         out.append("</STATIC-FIELDS>")
     if objs.get("dynamic_length_fields"):
@@ -153,7 +188,7 @@ def _emit_ddd(hier: dict, layer: dict, out: list) -> None:
         out.append("<END-OF-PDU-FIELDS>")
         for n, uid in objs["end_of_pdu_fields"].items():
             out.append(f'<END-OF-PDU-FIELD ID="{oid(L, "end_of_pdu_fields", n)}"><SHORT-NAME>{n}</SHORT-NAME>{_names(uid)}'
-                       f'<BASIC-STRUCTURE-REF ID-REF="{need(st_id, "structure", "end_of_pdu_fields")}"/></END-OF-PDU-FIELD>')
+                       + sref(uid, "end_of_pdu_fields") + '</END-OF-PDU-FIELD>')
         out.append("</END-OF-PDU-FIELDS>")
     if objs.get("muxs"):
         out.append("<MUXS>")
@@ -241,8 +276,12 @@ def _emit_layer(hier: dict, layer: dict, out: list) -> None:
                     continue
                 i = oid(L, "diag_comms", n)
                 p = service_prefix(hier, L, n)
+                extra = ""
+                if e.get("struct"):
+                    extra = ('<PARAM xsi:type="VALUE"><SHORT-NAME>payload</SHORT-NAME><BYTE-POSITION>2</BYTE-POSITION>'
+                             f'<DOP-REF ID-REF="{oid(L, "structures", e["struct"])}"/></PARAM>')
                 out.append(f'<REQUEST ID="{i}.rq"><SHORT-NAME>rq_{n}</SHORT-NAME><PARAMS>'
-                           f'{_coded_const("b0", 0, p[0])}{_coded_const("b1", 1, p[1])}</PARAMS></REQUEST>')
+                           f'{_coded_const("b0", 0, p[0])}{_coded_const("b1", 1, p[1])}{extra}</PARAMS></REQUEST>')
             out.append("</REQUESTS>")
     if objs.get("gnrs"):
         out.append("<GLOBAL-NEG-RESPONSES>")
@@ -380,6 +419,8 @@ def documents(hier: dict) -> list:
 def restrict(hier: dict, keep: set) -> dict:
     """the hierarchy reduced to the layers in `keep` (must be closed under parents and DIAG-COMM-REFs)"""
     h = dict(hier)
+    lnames, names = prefix_index(hier)
+    h["prefix_index"] = {"layers": lnames, "names": names}
     h["layers"] = [l for l in hier["layers"] if l["name"] in keep]
     if hier.get("docs"):
         h["docs"] = [[n for n in g if n in keep] for g in hier["docs"]]
